@@ -692,6 +692,12 @@ class XmlDocument(SubXmlBase):
             else:
                 result_inst, = ctx.out_object
 
+                if result_inst is None and \
+                                 len(getattr(result_message_class, '_type_info', (0,))) == 0:
+                    # a method that returns nothing: its response message is an
+                    # empty element, which is not declared nillable.
+                    result_inst = result_message_class()
+
             to_parent_args = ()
             if ctx.descriptor.body_style != BODY_STYLE_WRAPPED:
                 # the bare message element is published under this name
